@@ -39,7 +39,7 @@ func (vm *VisitorModel) rootVisitor(r *Run) string {
 		r.Fatal("parseCypher not found")
 	}
 	root := ""
-	ast.Inspect(pc.Body, func(n ast.Node) bool {
+	ast.Inspect(inlineFunc(vm.pkg, pc, 2).Body, func(n ast.Node) bool {
 		if call, ok := n.(*ast.CallExpr); ok && calleeOf(vm.pkg.TypesInfo, call) == vm.ctxEnter && len(call.Args) == 1 {
 			// argument is a local initialised with &QueryVisitor{}
 			arg := call.Args[0]
